@@ -470,6 +470,59 @@ func mutations(b []byte, r *vh.Rng, budget int) [][]byte {
 	return out
 }
 
+// specialPackets: for codes 1..11 and an unknown code, the payload values the handlers branch on.
+func specialPackets(e int, lid byte) [][]byte {
+	var out [][]byte
+	ids := []byte{lid, lid + 1}
+	own, zero, other := be32(ownMagic), be32(0), be32(0x01020304)
+	// Configure-Request / Ack / Nak / Reject with matching and stale identifiers
+	var optsets [][]byte
+	switch e {
+	case ELcpRecv:
+		optsets = [][]byte{nil, cat([]byte{1, 4}, be16(1492)), cat([]byte{5, 6}, own), cat([]byte{5, 6}, zero), cat([]byte{5, 6}, other),
+			{3, 4, 0xc0, 0x23}, {3, 5, 0xc2, 0x23, 5}, {7, 2}, {8, 2}, cat([]byte{1, 4}, be16(10)), {1, 3, 0}, {5, 3, 0}, {3, 3, 0xc2}}
+	case EIpcpRecv:
+		optsets = [][]byte{nil, {3, 6, 0, 0, 0, 0}, {3, 6, 10, 0, 0, 77}, {3, 6, 10, 0, 0, 78}, {129, 6, 0, 0, 0, 0}, {131, 6, 8, 8, 8, 8}, {2, 4, 0, 0x2d}, {3, 3, 1}}
+	default:
+		optsets = [][]byte{nil, cat([]byte{1, 10}, make([]byte, 8)), {1, 10, 1, 2, 3, 4, 5, 6, 7, 8}, {1, 4, 1, 2}, {2, 2}}
+	}
+	for code := byte(1); code <= 4; code++ {
+		for _, id := range ids {
+			for _, o := range optsets {
+				out = append(out, cp(code, id, o))
+			}
+		}
+	}
+	// Terminate-Request / Ack
+	for code := byte(5); code <= 6; code++ {
+		for _, id := range ids {
+			out = append(out, cp(code, id, nil), cp(code, id, []byte("bye")))
+		}
+	}
+	// Code-Reject: every rejected code 0..12 (1..4 critical), with and without the rest of the packet
+	for rc := 0; rc <= 12; rc++ {
+		out = append(out, cp(7, 9, []byte{byte(rc)}), cp(7, 9, cat([]byte{byte(rc), 1}, be16(4))))
+	}
+	out = append(out, cp(7, 9, nil))
+	// Protocol-Reject: rejected protocol LCP itself (critical), the NCPs, the auth protocols, other; short
+	for _, pr := range []int{0xC021, 0x8021, 0x8057, 0xC023, 0xC223, 0x0021, 0x1234, 0xC020, 0xC121} {
+		out = append(out, cp(8, 9, be16(pr)), cp(8, 9, cat(be16(pr), []byte{1, 2, 3})))
+	}
+	out = append(out, cp(8, 9, nil), cp(8, 9, []byte{0xC0}))
+	// Echo-Request / Echo-Reply / Discard-Request: magic own, zero, other; with payload; short
+	for code := byte(9); code <= 11; code++ {
+		for _, m := range [][]byte{own, zero, other} {
+			out = append(out, cp(code, 3, m), cp(code, 3, cat(m, []byte("ping"))))
+		}
+		out = append(out, cp(code, 3, nil), cp(code, 3, []byte{1, 2, 3}))
+	}
+	// unknown codes
+	for _, code := range []byte{0, 12, 13, 200, 255} {
+		out = append(out, cp(code, 3, nil), cp(code, 3, []byte{1, 2, 3, 4, 5}))
+	}
+	return out
+}
+
 func isPure(e int) bool {
 	for _, x := range pureEntries {
 		if x == e {
@@ -539,8 +592,17 @@ func main() {
 	implOnly := 0
 	perClass := map[string]int{}
 	var cases []vh.Case
+	hangs := map[int]int{}
 	emit := func(d Desc, tag string) {
+		if hangs[d.E] >= 2 { // two HANG cases of an entry point are enough; each costs its time limit
+			return
+		}
 		c := run(d)
+		for _, t := range c.Tags {
+			if t == "outcome:HANG" {
+				hangs[d.E]++
+			}
+		}
 		if os.Getenv("C09_PROBE") != "" && !strings.Contains(c.Coq, "OOk") && !strings.Contains(c.Coq, "OErr") {
 			o := Call(d.E, d.P, d.D, d.T)
 			fmt.Fprintf(os.Stderr, "PROBE %s %s p=%v d=%x t=%x :: %s\n", entryNames[d.E], className[o.Class], d.P, d.D, d.T, o.Note)
@@ -549,7 +611,6 @@ func main() {
 		cases = append(cases, c)
 	}
 	// probe: run on the implementation only; a PANIC / HANG becomes a case
-	hangs := map[int]int{}
 	probe := func(d Desc, tag string) {
 		if hangs[d.E] >= 2 {
 			return
@@ -618,7 +679,7 @@ func main() {
 		"note": "each case is a whole block: all byte strings of the given length (and prefix) for one entry point; the Model recomputes class counts and a checksum of every parsed result"})
 
 	// 2. structured + malformed streams
-	nb, sample, nrand := 6, 20, 30
+	nb, sample, nrand := 6, 15, 30
 	if thorough {
 		nb, sample, nrand = 40, 40, 300
 	}
@@ -663,12 +724,29 @@ func main() {
 				for _, dl := range []int{0, 1, 3, 4, 5, 9} {
 					for _, id := range []byte{byte(lid), byte(lid + 1)} {
 						d := Desc{E: e, P: []uint64{uint64(st), lid}, D: cp(byte(code), id, r.Bytes(dl))}
-						if (code+dl+st)%4 == 0 || (e == ELcpRecv && st == 9 && code == 9) {
+						if (code+dl+st)%12 == 0 || (e == ELcpRecv && st == 9 && code == 9) {
 							emit(d, "state-x-code")
 						} else {
 							probe(d, "state-x-code")
 						}
 					}
+				}
+			}
+		}
+	}
+	// semantically special packets: every code in every state with the field values the handlers
+	// branch on (rejected protocol / rejected code / magic own, zero, other / matching and stale ids)
+	for _, e := range []int{ELcpRecv, EIpcpRecv, EIp6cpRecv} {
+		for st := 0; st < 10; st++ {
+			lid := lastIDFor(e, st)
+			for k, pk := range specialPackets(e, byte(lid)) {
+				d := Desc{E: e, P: []uint64{uint64(st), lid}, D: pk}
+				// every packet runs on the real automaton under the time limit; through the Model go all
+				// LCP Code-Reject / Protocol-Reject / Echo / Discard / unknown-code packets and a quarter of the rest
+				if (e == ELcpRecv && (pk[0] >= 7 || pk[0] == 0)) || (k+st)%4 == 0 {
+					emit(d, "state-x-special")
+				} else {
+					probe(d, "state-x-special")
 				}
 			}
 		}
